@@ -557,7 +557,9 @@ func instrument(p *pkgInfo, f *fileInfo) []byte {
 				switch se.Sel.Name {
 				case "Sleep", "Now", "Since":
 					repl(se.Pos(), se.End(), "verifrt."+se.Sel.Name)
-				case "After", "Tick", "NewTimer", "NewTicker", "AfterFunc":
+				case "Tick":
+					repl(se.Pos(), se.End(), "verifrt.TimeTick")
+				case "After", "NewTimer", "NewTicker", "AfterFunc":
 					if p.dir == "dag" {
 						unsupp = append(unsupp, fmt.Sprintf("%s: time.%s is not modelled", where(x), se.Sel.Name))
 					}
